@@ -23,7 +23,7 @@ import (
 // store; the first one leads, the second follows. Requests go to the follower's client port over gRPC.
 // Oracle: a write sent to the follower either fails and changes nothing, or (etcd API with the proxy on) is executed by
 // the leader exactly once; native writes and native watches are refused; an etcd watch is refused or (proxy on) shows the
-// leader's events; every read the follower answers contains a write the leader acknowledged before the read was sent.
+// leader's events; every read the follower answers contains a write that was readable on the leader before the read was sent.
 func runC18ProdPair(c *harness.Case, proxyOn bool, peerTLS string) {
 	eng, err := harness.NewEngine("memkv")
 	if err != nil {
@@ -143,6 +143,12 @@ func runC18ProdPair(c *harness.Case, proxyOn bool, peerTLS string) {
 			return
 		}
 		wrev := cr.Header.GetRevision()
+		// an acknowledged write becomes readable on the leader itself a moment later (when the sequencer passes it);
+		// "the leader's revision" a follower must read at is that read revision, so wait until the leader serves it
+		if !A.n.WaitCommitted(wrev, 30*time.Second) {
+			c.Inconclusive("watchdog: the leader's read revision did not reach its acknowledged write")
+			return
+		}
 		g, gerr := B.brainGRPC.Get(ctx, &pb.GetRequest{Key: []byte(key)})
 		note("leader created %q at %d; follower Get -> %v %v", key, wrev, g, gerr)
 		if gerr == nil && (g.Kv == nil || g.Kv.Revision != wrev) {
